@@ -45,7 +45,7 @@ ANCHORS = [
     ("deepali.spatial.composite", "CompositeTransform.update"),
 ]
 MODELS = X.NONRIGID + ["Translation", "EulerRotation", "AffineTransform", "Sequential"]
-OPS = ["data_", "inplace", "grid_", "condition_", "reset_parameters", "update", "call", "disp", "inverse", "inv_read", "clear_buffers", "copy_edit"]
+OPS = ["data_", "inplace", "grid_", "condition_", "reset_parameters", "update", "call", "disp", "inverse", "inv_read", "clear_buffers", "copy_edit", "fit"]
 N_CASES = {"quick": 300, "thorough": 24000}
 BUDGET = {"quick": 600, "thorough": 5400}
 
@@ -60,7 +60,7 @@ def plan(tier, seed):
 
 
 def mandatory(tier):
-    return [f"model/{m}" for m in MODELS] + [f"op/{o}" for o in OPS] + [f"kind/{k}" for k in X.KINDS] + [f"grid_/at_new_samples/{k}" for k in ("resize", "other_domain", "same_shape")] + ["first_read_is_inverse", "image_transformer_reads_first", "pointset_transformer_reads_first"] + [f"svf_view/{v}" for v in VIEWS] + ["svf_view/grid_/flip_align_corners", "linked_inverse/data_", "linked_inverse/inplace", "linked_inverse/kind/parameter", "linked_inverse/kind/buffer"]
+    return [f"model/{m}" for m in MODELS] + [f"op/{o}" for o in OPS] + [f"kind/{k}" for k in X.KINDS] + [f"grid_/at_new_samples/{k}" for k in ("resize", "other_domain", "same_shape")] + ["first_read_is_inverse", "image_transformer_reads_first", "pointset_transformer_reads_first"] + [f"svf_view/{v}" for v in VIEWS] + ["svf_view/grid_/flip_align_corners", "fit/parameters", "fit/finer", "linked_inverse/data_", "linked_inverse/inplace", "linked_inverse/kind/parameter", "linked_inverse/kind/buffer"]
 
 
 class Subject:
@@ -324,6 +324,28 @@ def history(ctx, rng, info, subj, i):
                 first_read_is_inverse(ctx, rng, subj, x, hist, info, desc)
                 compare_fresh(ctx, subj, x, hist, info, "disp")
                 ctx.close("reset_gives_identity", t(x), np.broadcast_to(x.numpy(), t(x).shape), 1e-6, key="reset/identity", history=list(hist), **info)
+            elif op == "fit":
+                # replaces the parameters by a given flow field (closed form for a dense displacement field)
+                if subj.name != "DisplacementFieldTransform" or subj.kind == "callable":
+                    continue
+                from deepali.core.grid import Axes
+                from deepali.data.flow import FlowFields
+
+                pg = t.grid().resize(tuple(t.params.shape[:1:-1]))  # grid of the parameters (stride)
+                same = bool(rng.integers(0, 2))
+                fg = pg if same else t.grid().resize(tuple(int(k) + 2 for k in t.grid().size()))
+                fdata = torch.tensor(rng.normal(size=(t.params.shape[0], D) + tuple(fg.shape)) * 0.1, dtype=torch.float32)
+                for _ in range(2):
+                    fdata = (fdata + fdata.roll(1, -1) + fdata.roll(1, -2)) / 3
+                desc["flow_grid"] = "parameters" if same else "finer"
+                t.fit(FlowFields(fdata, fg, Axes.from_grid(fg)))
+                hist.append(desc)
+                ctx.bucket("fit/" + desc["flow_grid"])
+                if same:
+                    ctx.close("fit_takes_over_flow_given_on_parameter_grid", t.params.detach(), fdata.numpy(), 1e-6, key="fit/values", history=list(hist), **info)
+                first_read_is_inverse(ctx, rng, subj, x, hist, info, desc)
+                compare_fresh(ctx, subj, x, hist, info, "disp")
+                compare_fresh(ctx, subj, x, hist, info, "tensor")
             elif op == "update":
                 t.update()
                 hist.append(desc)
